@@ -339,7 +339,8 @@ prop("C14", [
          "also for 200), each on a fresh connection to a real Http::Endpoint; over the limit => handler never runs and "
          "413, within => served and never 413. time: one case = (header,body) time-out pair x stall point (after "
          "connect, inside request line, inside headers, after headers, inside body) x stall {T-500, T, T+500, T+1000 ms} "
-         "x scan phase {0,250 ms} under virtual time in 250 ms ticks; stall <= T => 200 and never a 408 at or before "
+         "x scan phase {0,250 ms} x {completion after the last clock step, completion in the same wake-up as it} under "
+         "virtual time in 250 ms ticks, time-out pairs with whole and fractional seconds; stall <= T => 200 and never a 408 at or before "
          "T; stall >= T+500 ms => 408, handler not run, connection closed; the same grid for the second request of a "
          "keep-alive connection whose first request was served 750 ms after connect. time2: two connections on the one worker, "
          "each stalled at its own point (quick: after connect / inside headers / inside body; thorough: all five), the "
